@@ -17,6 +17,7 @@ package c17
 
 import (
 	"encoding/json"
+	"errors"
 	"fmt"
 	"io"
 	"log"
@@ -28,6 +29,7 @@ import (
 	"strconv"
 	"strings"
 	"sync"
+	"sync/atomic"
 	"time"
 
 	"verif/harness/hx"
@@ -42,6 +44,8 @@ type Config struct {
 }
 
 const childEnv = "VERIF_C17_CHILD"
+
+var errSkipped = errors.New("skipped")
 
 // a child runs one scenario at one GOMAXPROCS value
 type childSpec struct {
@@ -124,6 +128,7 @@ func Run(cfg Config) *hx.Result {
 		par = 4
 	}
 	sem := make(chan struct{}, par)
+	var timeouts atomic.Int32
 	var wg sync.WaitGroup
 	for i, sp := range specs {
 		wg.Add(1)
@@ -147,16 +152,24 @@ func Run(cfg Config) *hx.Result {
 				return
 			}
 			go func() { done <- cmd.Wait() }()
-			limit := 120 * time.Second
+			// a healthy child needs a few seconds; a hang (seen with seeded defects that mix up
+			// requests) must not stall the check: after a few timeouts the rest is skipped
+			limit := 45 * time.Second
 			if thorough {
-				limit = 300 * time.Second
+				limit = 90 * time.Second
+			}
+			if timeouts.Load() >= 3 {
+				o.err = errSkipped
+				outs[i] = o
+				return
 			}
 			select {
 			case o.err = <-done:
 			case <-time.After(limit):
 				cmd.Process.Kill()
 				<-done
-				o.err = fmt.Errorf("child timed out after %s", limit)
+				timeouts.Add(1)
+				o.err = fmt.Errorf("child timed out after %s (hang)", limit)
 			}
 			o.stderr = errBuf.String()
 			if data, err := os.ReadFile(outPath); err == nil {
@@ -179,6 +192,10 @@ func Run(cfg Config) *hx.Result {
 
 	seenRace := map[string]bool{}
 	for _, o := range outs {
+		if o.err == errSkipped {
+			r.Count("children-skipped-after-timeouts")
+			continue
+		}
 		r.Count("children:" + o.spec.Scenario)
 		r.OracleCases++ // "this execution is free of data races and the process survives"
 		if o.res == nil || o.err != nil {
@@ -188,6 +205,9 @@ func Run(cfg Config) *hx.Result {
 				why = o.err.Error()
 			}
 			class := "C17 child process died"
+			if o.err != nil && strings.Contains(o.err.Error(), "timed out") {
+				class = "C17 scenario hangs"
+			}
 			for _, marker := range []string{"concurrent map writes", "concurrent map read and map write", "concurrent map iteration and map write", "all goroutines are asleep"} {
 				if strings.Contains(o.stderr, marker) {
 					class = "C17 runtime fatal error: " + marker
